@@ -36,6 +36,55 @@ SOURCES = [
 ]
 NATIVE = {"String", "u8", "u16", "u32", "u64", "usize", "bool"}
 
+# ---- custom (de)serialisers that are plain text functions (units/serde16/table.json): what each kind computes ----------------
+# writer kinds: value expression V -> text; reader kinds: (text S, value V) -> accepted relation, rejected texts
+SER_KINDS = {
+    "yesno": lambda v: "yesno_text(%s)" % v,
+    "join_sp": lambda v: "join_seqs(strs_view(%s@), \" \"@)" % v,
+    "join_nl": lambda v: "join_seqs(strs_view(%s@), \"\\n\"@)" % v,
+    # Display of the two std types whose text is defined here
+    "disp_string": lambda v: "%s@" % v,
+    "disp_bool": lambda v: "bool_text(%s)" % v,
+}
+DE_KINDS = {
+    "yesno": (lambda s_, v: "yesno_parse(%s) == Some(%s)" % (s_, v), lambda s_: "yesno_parse(%s) is None" % s_),
+    "words": (lambda s_, v: "strings_view(%s@) == ws_tokens(%s)" % (v, s_), lambda s_: "false"),
+    "lines_ne": (lambda s_, v: "strings_view(%s@) == drop_empty(split_char(%s, '\\n'))" % (v, s_), lambda s_: "false"),
+    "lines": (lambda s_, v: "strings_view(%s@) == lines_spec(%s)" % (v, s_), lambda s_: "false"),
+}
+# contracts of the real functions (unit serde16), by role and kind; P = the function's parameter
+SERDE_CONTRACT = {
+    ("de", "yesno"): "match yesno_parse(P@) { Some(b) => r == Ok::<bool, String>(b), None => r is Err }",
+    ("ser", "yesno"): "r@ == yesno_text(*P)",
+    ("de", "words"): "r is Ok, strings_view(r->Ok_0@) == ws_tokens(P@)",
+    ("de", "lines_ne"): "r is Ok, strings_view(r->Ok_0@) == drop_empty(split_char(P@, '\\n'))",
+    ("de", "lines"): "r is Ok, strings_view(r->Ok_0@) == lines_spec(P@)",
+    ("ser", "join_sp"): "r@ == join_seqs(strs_view(P@), \" \"@)",
+    ("ser", "join_nl"): "r@ == join_seqs(strs_view(P@), \"\\n\"@)",
+}
+# (writer kind, reader kind) -> (domain of the value or None, proof that reading the written text gives the value, how equal)
+#   V = the value expression; the proof establishes  !ERR(SER(V))  and  REL(SER(V), w) ==> w "equal" V
+PAIRS = {
+    ("yesno", "yesno"): (None, ["theorem_pair_yesno(V);"], "eq"),
+    ("disp_bool", "from_bool"): (None, ["reveal_strlit(\"true\"); reveal_strlit(\"false\"); assert(\"true\"@.len() != \"false\"@.len());"], "eq"),
+    ("disp_string", "from_string"): (None, [], "string"),
+    ("join_sp", "words"): ("words_ok(strs_view(V@))", ["theorem_pair_words(strs_view(V@)); lemma_views_same(V@);"], "vec"),
+    ("join_nl", "words"): ("words_ok(strs_view(V@))", ["theorem_pair_words(strs_view(V@)); lemma_views_same(V@);"], "vec"),
+    ("join_nl", "lines_ne"): ("lines_ok(strs_view(V@))", ["theorem_pair_lines_ne(strs_view(V@)); lemma_views_same(V@);"], "vec"),
+    ("join_nl", "lines"): ("lines_ok_cr(strs_view(V@))", ["theorem_pair_lines(strs_view(V@)); lemma_views_same(V@);"], "vec"),
+}
+# flags have two values: any pairing of specified flag codecs is decided, inverse or not, by unfolding the four literals
+BOOL_DECIDE = ["reveal_strlit(\"yes\"); reveal_strlit(\"no\"); reveal_strlit(\"true\"); reveal_strlit(\"false\");",
+               "assert(\"yes\"@.len() == 3 && \"no\"@.len() == 2 && \"true\"@.len() == 4 && \"false\"@.len() == 5);"]
+
+
+def load_serde_table():
+    t = json.load(open(os.path.join(VERIF, "units", "serde16", "table.json")))
+    by = {}
+    for f in t["functions"]:
+        by[(f["file"], f["fn"])] = f
+    return t["functions"], by
+
 
 def split_top(s, sep=","):
     out, depth, cur = [], 0, ""
@@ -212,6 +261,10 @@ def main():
     if not structs:
         raise SystemExit("gen_derive: no deriving struct found (lost anchor)")
 
+    serde_fns, serde_by = load_serde_table()
+    defined_ser = {}   # spec fn name -> (value type, kind)
+    defined_de = {}
+    pair_report = []   # per field with a custom function or a defined std codec: proved / hypothesis
     type_map = {}
     opaque = {}        # verus name -> original type
     ser_specs = {}     # spec fn name -> value type (verus)
@@ -231,7 +284,9 @@ def main():
         uses = []
         arms = []
         from_ok, from_err, rt_hyp = [], [], []
+        pair_pre, pair_ok = [], []     # proof lines of theorem_rt: before the case split / in the Ok branch
         for i, (ident, fty, key, ser, de) in enumerate(fields):
+            ser_kind = de_kind = None
             leaf, optional = leaf_type(fty)
             if leaf not in NATIVE and not re.match(r"Vec\s*<\s*String\s*>$", leaf):
                 vn = "VxT_" + ident_of(leaf)
@@ -243,18 +298,27 @@ def main():
                 if sfn in ser_specs and ser_specs[sfn] != vty:
                     sfn = sfn + "_" + ident_of(vty)
                 ser_specs[sfn] = vty
+                ent = serde_by.get((rel, ser))
+                if ent and ent["role"] == "ser":
+                    ser_kind = ent["kind"]
+                    defined_ser[sfn] = (vty, ser_kind)
                 alias = "use super::stub_%s as %s;" % (sfn, ser)
                 if alias not in uses:
                     uses.append(alias)
                 val = lambda e, sfn=sfn: "%s(%s)" % (sfn, e)
             else:
                 val = lambda e: "%s.display_spec()" % e
+                ser_kind = {"String": "disp_string", "bool": "disp_bool"}.get(leaf)
             # ---- reading side (FromDeb822): the relation between a field text and the value it is read as
             if de:
                 dfn = "de_%s_%s" % (ident_of(crate + "_" + "_".join(modpath)).lower(), de)
                 if dfn in de_specs and de_specs[dfn] != vty:
                     dfn = dfn + "_" + ident_of(vty)
                 de_specs[dfn] = vty
+                ent = serde_by.get((rel, de))
+                if ent and ent["role"] == "de":
+                    de_kind = ent["kind"]
+                    defined_de[dfn] = (vty, de_kind)
                 alias = "use super::stub_%s as %s;" % (dfn, de)
                 if alias not in uses:
                     uses.append(alias)
@@ -262,17 +326,48 @@ def main():
                 errf = lambda s_, dfn=dfn: "%s_err(%s)" % (dfn, s_)
             else:
                 parse_types.add(vty)
+                de_kind = {"String": "from_string", "bool": "from_bool"}.get(leaf)
                 relf = lambda s_, v_, vty=vty: "<%s as VxFromStr>::parse_rel(%s, %s)" % (vty, s_, v_)
                 errf = lambda s_, vty=vty: "<%s as VxFromStr>::parse_err(%s)" % (vty, s_)
             k_ = rust_str(key)
             if optional:
                 from_ok.append("(match list_get(l, %s@) { Some(s) => x.%s is Some && %s, None => x.%s is None })" % (k_, ident, relf("s", "x.%s->Some_0" % ident), ident))
                 from_err.append("(match list_get(l, %s@) { Some(s) => %s && names_field(e, %s@, %s@), None => false })" % (k_, errf("s"), rust_str(PARSING_FMT), k_))
-                rt_hyp.append("(x.%s is Some ==> !%s && forall|w: %s| #[trigger] %s ==> w == x.%s->Some_0)" % (ident, errf(val("x.%s->Some_0" % ident)), vty, relf(val("x.%s->Some_0" % ident), "w"), ident))
+                V = "x.%s->Some_0" % ident
+                W = "y.%s->Some_0" % ident
+                guard = "x.%s is Some" % ident
             else:
                 from_ok.append("(match list_get(l, %s@) { Some(s) => %s, None => false })" % (k_, relf("s", "x.%s" % ident)))
                 from_err.append("(match list_get(l, %s@) { Some(s) => %s && names_field(e, %s@, %s@), None => e == fmt_msg1(%s@, %s@) })" % (k_, errf("s"), rust_str(PARSING_FMT), k_, rust_str(MISSING_FMT), k_))
-                rt_hyp.append("(!%s && forall|w: %s| #[trigger] %s ==> w == x.%s)" % (errf(val("x.%s" % ident)), vty, relf(val("x.%s" % ident), "w"), ident))
+                V = "x.%s" % ident
+                W = "y.%s" % ident
+                guard = None
+            # ---- the round trip of this field: proved from the two functions' specs, decided (flags), or a hypothesis
+            pair = PAIRS.get((ser_kind, de_kind))
+            decided_flag = pair is None and leaf == "bool" and ser_kind is not None and de_kind is not None
+            if pair or decided_flag:
+                dom, proof, how = pair if pair else (None, BOOL_DECIDE, "eq")
+                if dom:
+                    d_ = dom.replace("V", V)
+                    rt_hyp.append("(%s ==> %s)" % (guard, d_) if guard else "(%s)" % d_)
+                lines_pre = [pl.replace("V", V) for pl in proof]
+                lines_pre.append("assert(!(%s));" % errf(val(V)))
+                ext = {"eq": [], "string": ["axiom_string_ext(%s, %s);" % (W, V)], "vec": ["axiom_vec_string_ext(%s, %s);" % (W, V)]}[how]
+                lines_ok = ext + ["assert(%s == %s);" % (W, V)]
+                if guard:
+                    pair_pre.append("if %s { %s }" % (guard, " ".join(lines_pre)))
+                    pair_ok.append("if %s { %s }" % (guard, " ".join(lines_ok)))
+                else:
+                    pair_pre += lines_pre
+                    pair_ok += lines_ok
+                pair_report.append({"struct": name, "field": key, "writer": ser or "Display", "reader": de or "FromStr",
+                                    "status": "proved inverse" if pair else "decided by unfolding (flag)", "domain": dom})
+            else:
+                h = "!%s && forall|w: %s| #[trigger] %s ==> w == %s" % (errf(val(V)), vty, relf(val(V), "w"), V)
+                rt_hyp.append("(%s ==> %s)" % (guard, h) if guard else "(%s)" % h)
+                if ser or de:
+                    pair_report.append({"struct": name, "field": key, "writer": ser or "Display", "reader": de or "FromStr",
+                                        "status": "hypothesis (a function outside units/serde16/table.json, or kinds without an inverse lemma: %s / %s)" % (ser_kind, de_kind), "domain": None})
             if optional:
                 op = "opt_op(%s@, match x.%s { Some(v) => Some(%s), None => None::<Seq<char>> })" % (rust_str(key), ident, val("v"))
             else:
@@ -354,7 +449,7 @@ def main():
             body.append("/// HYPOTHESIS of the round trip: on this value's fields every (de)serialiser pair is inverse (not provable here: the")
             body.append("/// Display / FromStr / custom functions of the field types are outside the unit; the bounded stand-in samples them)")
             body.append("pub open spec fn rt_hyp_%s(x: %s) -> bool {" % (uid, ty))
-            body.append("    " + "\n    && ".join(rt_hyp))
+            body.append("    " + ("\n    && ".join(rt_hyp) if rt_hyp else "true"))
             body.append("}")
             body.append("/// C16 round trip for `%s`, over the contracts of to_paragraph / update_paragraph and from_paragraph: reading a fresh" % name)
             body.append("/// paragraph made from x, or any paragraph updated from x, returns Ok(x)")
@@ -368,8 +463,12 @@ def main():
             body.append("    theorem_%s(x, l0);" % uid)
             for i, (ident, fty, key, ser, de) in enumerate(fields):
                 body.append("    assert(op_key(op_%s(x, %d)) == %s@);" % (uid, i, rust_str(key)))
+            for pl in pair_pre:
+                body.append("    " + pl)
             body.append("    match r {")
             body.append("        Ok(y) => {")
+            for pl in pair_ok:
+                body.append("            " + pl)
             for i, (ident, fty, key, ser, de) in enumerate(fields):
                 body.append("            assert(y.%s == x.%s);" % (ident, ident))
             body.append("            assert(y == x);")
@@ -443,8 +542,7 @@ def main():
         trusted.append("#[verifier::external_body] pub struct %s { _p: () }" % vn)
         trusted.append("pub uninterp spec fn disp_%s(v: %s) -> Seq<char>;" % (vn, vn))
         trusted.append("impl VxDisplay for %s { open spec fn display_spec(&self) -> Seq<char> { disp_%s(*self) } }" % (vn, vn))
-    trusted.append("pub uninterp spec fn disp_bool(v: bool) -> Seq<char>;")
-    trusted.append("impl VxDisplay for bool { open spec fn display_spec(&self) -> Seq<char> { disp_bool(*self) } }")
+    trusted.append("impl VxDisplay for bool { open spec fn display_spec(&self) -> Seq<char> { bool_text(*self) } }")
     for vty in sorted(parse_types):
         if not vty.startswith("VxT_"):
             continue
@@ -459,22 +557,32 @@ def main():
         trusted.append("}")
     for dfn, vty in sorted(de_specs.items()):
         trusted.append("/// custom deserializer: an uninterpreted relation between the field text and the value, and the texts it rejects")
-        trusted.append("pub uninterp spec fn %s_rel(s: Seq<char>, v: %s) -> bool;" % (dfn, vty))
-        trusted.append("pub uninterp spec fn %s_err(s: Seq<char>) -> bool;" % dfn)
+        if dfn in defined_de and defined_de[dfn][0] == vty:
+            relk, errk = DE_KINDS[defined_de[dfn][1]]
+            trusted.append("// defined: the contract below is the one the REAL function is verified against in unit serde16 (kind %s)" % defined_de[dfn][1])
+            trusted.append("pub open spec fn %s_rel(s: Seq<char>, v: %s) -> bool { %s }" % (dfn, vty, relk("s", "v")))
+            trusted.append("pub open spec fn %s_err(s: Seq<char>) -> bool { %s }" % (dfn, errk("s")))
+        else:
+            trusted.append("pub uninterp spec fn %s_rel(s: Seq<char>, v: %s) -> bool;" % (dfn, vty))
+            trusted.append("pub uninterp spec fn %s_err(s: Seq<char>) -> bool;" % dfn)
         trusted.append("#[verifier::external_body] pub fn stub_%s(s: &String) -> (r: Result<%s, VxOpaqueErr>)" % (dfn, vty))
         trusted.append("    ensures match r { Ok(v) => %s_rel(s@, v) && !%s_err(s@), Err(_) => %s_err(s@) }" % (dfn, dfn, dfn))
         trusted.append("{ unimplemented!() }")
     for sfn, vty in sorted(ser_specs.items()):
         trusted.append("/// custom serializer: an uninterpreted function of the field value; ASSUMED deterministic")
-        trusted.append("pub uninterp spec fn %s(v: %s) -> Seq<char>;" % (sfn, vty))
+        if sfn in defined_ser and defined_ser[sfn][0] == vty:
+            trusted.append("// defined: the contract below is the one the REAL function is verified against in unit serde16 (kind %s)" % defined_ser[sfn][1])
+            trusted.append("pub open spec fn %s(v: %s) -> Seq<char> { %s }" % (sfn, vty, SER_KINDS[defined_ser[sfn][1]]("v")))
+        else:
+            trusted.append("pub uninterp spec fn %s(v: %s) -> Seq<char>;" % (sfn, vty))
         trusted.append("#[verifier::external_body] pub fn stub_%s(v: &%s) -> (r: String) ensures r@ == %s(*v) { unimplemented!() }" % (sfn, vty, sfn))
     spec += body
 
     unit = {
         "name": UNIT,
         "generated_by": "tools/gen_derive.py (rewritten on every run from /repo)",
-        "prelude": ["base.rs", "str_model.rs", "fmt_model.rs", "int_model.rs", "list_model.rs", "derive_model.rs"],
-        "spec": ["ops_spec.rs", "gen_trusted.rs", "gen_spec.rs"],
+        "prelude": ["base.rs", "str_model.rs", "fmt_model.rs", "strops_model.rs", "strext_model.rs", "int_model.rs", "iter_model.rs", "join_model.rs", "list_model.rs", "derive_model.rs"],
+        "spec": ["../common/ws_lemmas.rs", "../common/wordlist.rs", "../serde16/spec.rs", "ops_spec.rs", "gen_trusted.rs", "gen_spec.rs"],
         "trusted_spec": ["gen_trusted.rs"],
         "smt_options": ["smt.case_split=0"],
         "preamble": ["pub mod deb822_lossless { pub mod convert { pub use crate::Deb822LikeParagraph; } }"],
@@ -493,7 +601,13 @@ def main():
     open(os.path.join(out, "gen_spec.rs"), "w").write("\n".join(spec) + "\n")
     open(os.path.join(out, "gen_trusted.rs"), "w").write("\n".join(trusted) + "\n")
     open(os.path.join(out, "gen.vspec"), "w").write("\n".join(vspec) + "\n")
-    json.dump({"structs": cover, "fields_total": sum(c["fields"] for c in cover)}, open(os.path.join(out, "coverage.json"), "w"), indent=1)
+    json.dump({"structs": cover, "fields_total": sum(c["fields"] for c in cover), "codec_pairs": pair_report}, open(os.path.join(out, "coverage.json"), "w"), indent=1)
+    # unit serde16: the contracts of the real custom functions, from the same table
+    sv = ["// GENERATED by tools/gen_derive.py from units/serde16/table.json - do not edit", ""]
+    for f in serde_fns:
+        sv += ["@item %s/%s" % (f["mod"], f["fn"]), "@spec", "    ensures " + SERDE_CONTRACT[(f["role"], f["kind"])].replace("P", f["param"]) + ",", ""]
+    if UNIT == "derive16":
+        open(os.path.join(VERIF, "units", "serde16", "contracts.vspec"), "w").write("\n".join(sv))
     if WRITE_WIT:
         open(os.path.join(VERIF, "tools", "witness", "src", "gen_c16.rs"), "w").write(harness_table(structs))
     print("gen_derive: %d structs, %d fields" % (len(cover), sum(c["fields"] for c in cover)))
